@@ -251,7 +251,7 @@ def file_docs(lang: str) -> typing.Dict[str, dict]:
         s: {
             "zz": 0,
             "zl": [1, 2],
-            "zmap": {"x": {"y": "base"}, "w": "base"},
+            "zmap": {"x": {"y": "base", "k": "base"}, "w": "base"},
             "options": {"zz_opt": "base"},
         }
     }
@@ -267,13 +267,16 @@ def file_docs(lang: str) -> typing.Dict[str, dict]:
         s: {
             "zz": {"x": {"y": "f1"}},
             "zl": {"x": "f1"},
-            "zmap": {"x": {"y": "f1", "v": "f1"}},
+            # a map where F2 has a scalar and F0 / the base have a map with OTHER keys: (base + F2) + F1 != base + (F2 + F1)
+            "zmap": {"x": {"v": "f1"}},
             "options": {
                 "target_endianness": "little",
                 "omit_float_serialization_support": True,
                 "zz_opt": {"n": {"m": "f1"}},
             },
-        }
+        },
+        # a section of a language that is NOT the target: what the context's other Language objects report
+        "nunavut.lang.js": {"zjs": {"k": "f1", "j": "f1"}},
     }
     f2 = {
         s: {
@@ -314,9 +317,9 @@ OVERRIDES: typing.Dict[str, typing.Tuple[str, typing.Any]] = {
 }
 
 API_ALPHABET = {
-    "c": ("F0", "F1", "F2", "S_def", "S_exp", "S_zd", "S_zz", "S_ext", "CREATE"),
-    "py": ("F0", "F1", "F2", "S_def", "S_exp", "S_zd", "S_zz", "S_ext", "CREATE"),
-    "cpp": ("F0", "F1", "F2", "S_def", "S_exp", "S_zd", "S_zz", "S_ext", "S_pmr", "S_cetl", "CREATE"),
+    "c": ("F0", "F1", "F2", "F21", "S_def", "S_exp", "S_zd", "S_zz", "S_ext", "CREATE"),
+    "py": ("F0", "F1", "F2", "F21", "S_def", "S_exp", "S_zd", "S_zz", "S_ext", "CREATE"),
+    "cpp": ("F0", "F1", "F2", "F21", "S_def", "S_exp", "S_zd", "S_zz", "S_ext", "S_pmr", "S_cetl", "CREATE"),
 }
 # events that hand a (possibly shared) mutable document to a builder or merge into one: enough to set up and to expose
 # state shared between two builders.
